@@ -162,7 +162,7 @@ pub fn judge(rep: &mut Report, c: &Case, bases: &std::collections::HashSet<crate
 
 pub fn explore(ctx: &Ctx, shard: usize, n: usize) -> Report {
     let bases: std::collections::HashSet<crate::sw::SegKey> = asca::verif::cardinals().iter().map(|(_, s)| sw::seg_key(s)).collect();
-    drive::cases(ctx, shard, n, RULE, 0x15, 100_000, 3_000_000, |r, rep, _| { let c = gen(r); judge(rep, &c, &bases); })
+    drive::cases(ctx, shard, n, RULE, 0x15, 100_000, 30_000_000, |r, rep, _| { let c = gen(r); judge(rep, &c, &bases); })
 }
 pub fn replay(_ctx: &Ctx, v: &Value) -> Report {
     let mut rep = Report::new(RULE);
